@@ -176,6 +176,9 @@ func registerTimeIntrinsics() {
 		p.side["time.last"] = v
 		return p.timeStruct(v)
 	}
+	intrinsics["time.Unix"] = func(p *Path, th *Thread, fr *Frame, args []Value) Value {
+		return p.timeStruct(args[0].(*Term))
+	}
 	intrinsics["(time.Time).UnixNano"] = func(p *Path, th *Thread, fr *Frame, args []Value) Value {
 		return args[0].(Struct)[1]
 	}
@@ -389,5 +392,62 @@ func init() {
 			return p.mkInt(types.Typ[types.Uint32], int64(fnvAddString32(uint32(h.val), s)))
 		}
 		return p.ufApply("fnvAddString32", []*Term{h}, s)
+	}
+}
+
+// ---------- distsys.DefineConstantOperator (its general case uses reflect) ----------
+
+func fieldIndex(t types.Type, name string) int {
+	st := t.Underlying().(*types.Struct)
+	for i := 0; i < st.NumFields(); i++ {
+		if st.Field(i).Name() == name {
+			return i
+		}
+	}
+	panic("no field " + name + " in " + t.String())
+}
+
+func init() {
+	intrinsics["github.com/DistCompiler/pgo/distsys.DefineConstantOperator"] = func(p *Path, th *Thread, fr *Frame, args []Value) Value {
+		name := args[0].(string)
+		defn := args[1].(Iface)
+		sig, ok := defn.t.Underlying().(*types.Signature)
+		if !ok {
+			panic(targetPanic{mkExtErr("constant operator definition " + name + " is not a function")})
+		}
+		variadic := sig.Variadic()
+		nparams := sig.Params().Len()
+		wrapper := &IntrinsicFn{name: "constantOperator:" + name, f: func(p *Path, th *Thread, fr *Frame, cargs []Value) Value {
+			vals := cargs[0].(Slice).a
+			var callArgs []Value
+			if variadic {
+				fixed := nparams - 1
+				if len(vals) < fixed {
+					panic(targetPanic{mkExtErr("constant operator " + name + " called with wrong number of arguments")})
+				}
+				for i := 0; i < fixed; i++ {
+					callArgs = append(callArgs, vals[i])
+				}
+				rest := append([]Value{}, vals[fixed:]...)
+				callArgs = append(callArgs, Slice{a: rest})
+			} else {
+				if len(vals) != nparams {
+					panic(targetPanic{mkExtErr("constant operator " + name + " called with wrong number of arguments")})
+				}
+				callArgs = append(callArgs, vals...)
+			}
+			return p.call(th, fr, defn.v, callArgs)
+		}}
+		return &IntrinsicFn{name: "configFn:" + name, f: func(p *Path, th *Thread, fr *Frame, cargs []Value) Value {
+			ctx := cargs[0].(*Value)
+			ctxT := p.e.pkgs["github.com/DistCompiler/pgo/distsys"].Type("MPCalContext").Type()
+			st := (*ctx).(Struct)
+			m := st[fieldIndex(ctxT, "constantDefns")].(*MapObj)
+			if p.mapFind(m, name) != nil {
+				panic(targetPanic{mkExtErr("constant definition " + name + " defined twice")})
+			}
+			p.mapSet(m, name, wrapper)
+			return nil
+		}}
 	}
 }
